@@ -16,6 +16,7 @@ import (
 type pairLine struct {
 	Case    int      `json:"case"`
 	Desc    string   `json:"desc"`
+	Env     string   `json:"env"` // environment of the diff (reader behaviour, origin of the old signature)
 	Algo    string   `json:"algo"`
 	Q       int32    `json:"q"`
 	TSizes  []int64  `json:"tsizes"`
@@ -87,7 +88,11 @@ func cmdC01(args []string) error {
 		wantSnap := snapList(new.snapshot())
 		for ci, c := range chosen {
 			line := pairLine{Case: k, Desc: desc, Algo: c.a, Q: c.q, New: wantSnap, Msgs: []opFact{}, Out: []string{}}
-			dr, err := realDiffDirs(oldDir, newDir, compressionOf(c.a, c.q))
+			// the environment of the diff varies too: readers that hand over the last bytes with io.EOF, short reads,
+			// an old signature read back from a signature stream
+			env := []diffEnv{{}, {SrcEOF: true}, {StoredSig: true}, {SrcEOF: true, SrcChunk: []int{1000, 16384, BS + 1}[k%3], StoredSig: true}}[(k+ci)%4]
+			line.Env = env.String()
+			dr, err := realDiffDirsEnv(oldDir, newDir, compressionOf(c.a, c.q), env)
 			if err != nil {
 				line.DiffErr = err.Error()
 				w.emit(line)
